@@ -1,62 +1,177 @@
 (* C13 -- tracks expire exactly when their age reaches the TTL.
-   Statements only; proofs live in Proofs/TrackerProofs.v.  The model is pyais/tracker.py after
-   `fix: expire stale tracks in unordered trackers even when a newer track is still alive`.
+   Statements only; proofs live in Proofs/TrackerCbProofs.v (and Proofs/TrackerProofs.v).  The model is pyais/tracker.py
+   after `fix: expire stale tracks in unordered trackers even when a newer track is still alive`, in its GENERAL form
+   `trkc_step` (Model/Tracker.v): the subscriber callbacks may raise.
 
-   `reachable nattrs st` : st is the state after some history (any updates with arbitrary, also out-of-order,
-   timestamps, pops, cleanups at arbitrary clock values), in either mode, with any TTL.
-   `sp_ttl_ok T now remaining removed` (Spec/TrackerSpec.v): every remaining track has now - last_updated < T and every
-   track handed to a DELETED callback during the operation had T <= now - last_updated. *)
+   trk_env V                   what the callbacks do during ONE operation (`e_cb env cb event track` = returns / raises e;
+                               a callback may behave differently from operation to operation) and in which order the
+                               operation's cleanup() visits its set of expired MMSIs (`e_iter`).  Callbacks that call
+                               back into the tracker are outside the model.
+   env_ok env                  iterating the set visits exactly its elements (all that is assumed of `e_iter`).
+   reachable_any nattrs st     st is the state after ANY history (updates with arbitrary, also out-of-order, timestamps,
+                               pops, cleanups at arbitrary clock values, callback registration), in either mode, with any
+                               TTL, WHATEVER the subscribers did -- including operations left by their exceptions.
+   reachable_c nattrs st       the same, as long as no exception of a subscriber has left update() or cleanup()
+                               (`step_ok`: each update()/cleanup() so far returned, or raised before its first propagate
+                               call = a rejected update).  A KeyError raised by a DELETED subscriber never leaves
+                               pop_track (`except KeyError: return None`), so histories with such subscribers are covered
+                               in full; pop_track may raise anything.
+   rc_exn res = None           the operation returned normally.
+   sp_ttl_ok T now remaining removed (Spec/TrackerSpec.v): every remaining track has now - last_updated < T and every
+                               track handed to a DELETED callback during the operation had T <= now - last_updated. *)
 From Coq Require Import ZArith List Bool.
-Require Import Prim.Exn Prim.IntDict Model.Tracker Spec.TrackerSpec Proofs.TrackerProofs.
+Require Import Prim.Exn Prim.IntDict Model.Tracker Spec.TrackerSpec Proofs.TrackerProofs Proofs.TrackerCbProofs.
 Import ListNotations.
 Open Scope Z_scope.
 
-(* After cleanup() and after every accepted update() performed at clock value `now`, in both modes, for every TTL
-   (also 0 and negative ones), whatever the order in which stale and fresh tracks were inserted. *)
-Theorem C13_expiry_exact : forall (V : Type) (nattrs : nat) (st : trk_tracker V) (op : trk_op V) (now T : Z),
-  reachable nattrs st -> t_ttl st = Some T ->
+(* After every cleanup()/update() that RETURNS, performed at clock value `now`, in both modes, for every TTL (also 0 and
+   negative ones), whatever the order in which stale and fresh tracks were inserted and whatever the subscribers do
+   during the operation (return, raise KeyError from a DELETED callback -- swallowed by pop_track after the track was
+   deleted --; anything that escapes makes the operation raise, and then it did not complete). *)
+Theorem C13_expiry_exact : forall (V : Type) (nattrs : nat) (env : trk_env V) (st : trk_tracker V) (op : trk_op V) (now T : Z),
+  reachable_c nattrs st -> env_ok env -> t_ttl st = Some T ->
   (op = OpCleanup now \/ exists msg ts, op = OpUpdate now msg ts) ->
-  let res := trk_step nattrs st op in
-  r_exn res = None ->
-  sp_ttl_ok T now (map (@tr_lu V) (trk_tracks (r_state res))) (deleted_lus (r_calls res)).
-Proof. exact (fun V => @expiry_exact V). Qed.
+  let res := trkc_step nattrs env st op in
+  rc_exn res = None ->
+  sp_ttl_ok T now (map (@tr_lu V) (trk_tracks (rc_state res))) (deleted_lus (rc_calls res)).
+Proof. exact (fun V => @expiry_exact_c V). Qed.
 Print Assumptions C13_expiry_exact.
 
-(* With TTL None nothing ever expires: no operation other than pop_track emits DELETED or loses an MMSI. *)
-Theorem C13_no_ttl_no_expiry : forall (V : Type) (nattrs : nat) (st : trk_tracker V) (op : trk_op V),
-  reachable nattrs st -> t_ttl st = None -> (forall m, op <> OpPop m) ->
-  let res := trk_step nattrs st op in
-  deleted_mmsis (r_calls res) = [] /\ incl (keys (t_tracks st)) (keys (t_tracks (r_state res))).
-Proof. exact (fun V => @no_ttl_no_expiry V). Qed.
+(* What holds of EVERY update()/cleanup(), also one that is left by the exception of a subscriber, from EVERY state:
+   no track younger than the TTL is removed by expiry (the second half of C13), and the state left behind satisfies the
+   structural invariants (one entry per MMSI, keyed by the track's own MMSI, ordered mode: sorted by last_updated, full
+   attribute lists).  What an aborted operation does NOT preserve is the cache invariant -- see C13_refuted_* below. *)
+Theorem C13_never_removes_fresh : forall (V : Type) (nattrs : nat) (env : trk_env V) (st : trk_tracker V) (op : trk_op V) (now T : Z),
+  reachable_any nattrs st -> env_ok env -> t_ttl st = Some T ->
+  (op = OpCleanup now \/ exists msg ts, op = OpUpdate now msg ts) ->
+  let res := trkc_step nattrs env st op in
+  Forall (fun lu => T <= now - lu) (deleted_lus (rc_calls res)) /\ sinv nattrs (rc_state res).
+Proof. exact (fun V => @expiry_never_removes_fresh V). Qed.
+Print Assumptions C13_never_removes_fresh.
+
+(* With TTL None nothing ever expires: no operation other than pop_track emits DELETED or loses an MMSI (every state,
+   every behaviour of the subscribers). *)
+Theorem C13_no_ttl_no_expiry : forall (V : Type) (nattrs : nat) (env : trk_env V) (st : trk_tracker V) (op : trk_op V),
+  reachable_any nattrs st -> t_ttl st = None -> (forall m, op <> OpPop m) ->
+  let res := trkc_step nattrs env st op in
+  deleted_mmsis (rc_calls res) = [] /\ incl (keys (t_tracks st)) (keys (t_tracks (rc_state res))).
+Proof. exact (fun V => @no_ttl_no_expiry_c V). Qed.
 Print Assumptions C13_no_ttl_no_expiry.
 
 (* The TTL and the mode are fixed at construction: no operation changes them. *)
-Theorem C13_configuration_constant : forall (V : Type) (nattrs : nat) (st : trk_tracker V) (op : trk_op V),
-  reachable nattrs st ->
-  t_ordered (r_state (trk_step nattrs st op)) = t_ordered st /\ t_ttl (r_state (trk_step nattrs st op)) = t_ttl st.
-Proof. exact (fun V => @step_cfg_reachable V). Qed.
+Theorem C13_configuration_constant : forall (V : Type) (nattrs : nat) (env : trk_env V) (st : trk_tracker V) (op : trk_op V),
+  reachable_any nattrs st ->
+  t_ordered (rc_state (trkc_step nattrs env st op)) = t_ordered st /\ t_ttl (rc_state (trkc_step nattrs env st op)) = t_ttl st.
+Proof. exact (fun V => @step_cfg_reachable_c V). Qed.
 Print Assumptions C13_configuration_constant.
 
-(* The invariants behind it, for every reachable state: one entry per MMSI, keyed by the track's own MMSI; the cached
-   oldest_timestamp is a lower bound of every last_updated; in ordered mode the table is sorted by last_updated. *)
-Theorem C13_invariants : forall (V : Type) (nattrs : nat) (st : trk_tracker V), reachable nattrs st -> inv nattrs st.
-Proof. exact (fun V => @reachable_inv V). Qed.
+(* The invariants behind it.  As long as no subscriber's exception has left update()/cleanup(): one entry per MMSI,
+   keyed by the track's own MMSI; the cached oldest_timestamp is a lower bound of every last_updated; in ordered mode
+   the table is sorted by last_updated.  In every state whatsoever: all of these except the cache. *)
+Theorem C13_invariants : forall (V : Type) (nattrs : nat) (st : trk_tracker V), reachable_c nattrs st -> inv nattrs st.
+Proof. exact (fun V => @reachable_c_inv V). Qed.
 Print Assumptions C13_invariants.
+
+Theorem C13_structural_invariants : forall (V : Type) (nattrs : nat) (st : trk_tracker V), reachable_any nattrs st -> sinv nattrs st.
+Proof. exact (fun V => @reachable_any_sinv V). Qed.
+Print Assumptions C13_structural_invariants.
+
+(* THE FINDING.  C13_expiry_exact without the guard -- over all states, including those left behind by an operation that
+   a subscriber's exception ended -- is false of pyais: *)
+Definition C13_statement_any_state : Prop :=
+  forall (V : Type) (nattrs : nat) (env : trk_env V) (st : trk_tracker V) (op : trk_op V) (now T : Z),
+    reachable_any nattrs st -> env_ok env -> t_ttl st = Some T ->
+    (op = OpCleanup now \/ exists msg ts, op = OpUpdate now msg ts) ->
+    rc_exn (trkc_step nattrs env st op) = None ->
+    sp_ttl_ok T now (map (@tr_lu V) (trk_tracks (rc_state (trkc_step nattrs env st op))))
+              (deleted_lus (rc_calls (trkc_step nattrs env st op))).
+
+(* witness: a CREATED subscriber raises (KeyError) for the first vessel, update() raises after inserting the track and
+   before `__set_oldest_timestamp`; oldest_timestamp stays None and cleanup() 13 ticks later (ttl 12) returns at once *)
+Theorem C13_refuted_after_callback_exception : ~ C13_statement_any_state.
+Proof. exact expiry_refuted_after_callback_exception. Qed.
+Print Assumptions C13_refuted_after_callback_exception.
+
+(* witness: a DELETED subscriber raises ValueError; cleanup() at 12 has advanced oldest_timestamp to 8, pops vessel 111,
+   is left by the exception and keeps vessel 222 (age 12); cleanup() at 13 returns early: 222 (age 13) remains *)
+Theorem C13_refuted_after_aborted_cleanup :
+  let st := fst (trkc_run 1 (trk_init (Some 12) false) witness_deleted) in
+  let res := trkc_step 1 trk_env_quiet st (OpCleanup 13) in
+  reachable_any 1 st /\ rc_exn res = None /\
+  ~ sp_ttl_ok 12 13 (map (@tr_lu Z) (trk_tracks (rc_state res))) (deleted_lus (rc_calls res)).
+Proof. exact expiry_refuted_after_aborted_cleanup. Qed.
+Print Assumptions C13_refuted_after_aborted_cleanup.
+
+(* The general model with subscribers that return normally IS the model `trk_step` that C12 (Props/C12.v) is stated
+   about, and every state of that model is one of the states C13_expiry_exact speaks about. *)
+Theorem C13_quiet_subscribers_give_trk_step : forall (V : Type) (nattrs : nat) (st : trk_tracker V) (op : trk_op V),
+  rc_state (trkc_step nattrs trk_env_quiet st op) = r_state (trk_step nattrs st op) /\
+  rc_calls (trkc_step nattrs trk_env_quiet st op) = r_calls (trk_step nattrs st op) /\
+  rc_exn (trkc_step nattrs trk_env_quiet st op) = r_exn (trk_step nattrs st op) /\
+  rc_deliv (trkc_step nattrs trk_env_quiet st op) = trk_deliver (t_broker st) (r_calls (trk_step nattrs st op)) /\
+  (forall m, op = OpPop m -> rc_ret (trkc_step nattrs trk_env_quiet st op) = snd (trk_pop_track st m)).
+Proof. exact (fun V => @trkc_step_quiet V). Qed.
+Print Assumptions C13_quiet_subscribers_give_trk_step.
+
+Theorem C13_quiet_states_covered : forall (V : Type) (nattrs : nat) (st : trk_tracker V),
+  reachable nattrs st -> reachable_c nattrs st.
+Proof. exact (fun V => @reachable_old_c V). Qed.
+Print Assumptions C13_quiet_states_covered.
+
+(* The environments the check's driver builds from its line protocol (rules + set order read off the implementation)
+   satisfy the one assumption made about environments. *)
+Theorem C13_driver_environments_ok : forall (V : Type) (rules : list trk_rule) (hint : list Z), env_ok (@trk_env_of V rules hint).
+Proof. exact (fun V => @env_of_ok V). Qed.
+Print Assumptions C13_driver_environments_ok.
 
 (* The boolean form evaluated by the check on the implementation's outputs is this proposition. *)
 Theorem C13_oracle_is_spec : forall T now a b, sp_ttl_okb T now a b = true <-> sp_ttl_ok T now a b.
 Proof. exact ttl_okb_iff. Qed.
 Print Assumptions C13_oracle_is_spec.
 
-(* non-vacuity: unordered mode, a stale track (111, age 20) inserted BEFORE a fresh one (222, age 4) -- the situation
-   the unrepaired scan missed -- and a third track whose age is one tick below the TTL *)
+(* non-vacuity 1: unordered mode, a stale track (111, age 20) inserted BEFORE a fresh one (222, age 4) -- the situation
+   the unrepaired scan missed -- and a third track whose age is one tick below the TTL; quiet subscribers *)
 Example C13_nonvacuous :
-  let h := [OpUpdate 0 (mkMsg 111 [MPresent (Some 1)]) (Some 0);
-            OpUpdate 0 (mkMsg 333 [MPresent (Some 3)]) (Some 1);
-            OpUpdate 16 (mkMsg 222 [MPresent (Some 2)]) None] in
-  let st := fst (trk_run 1 (trk_init (Some 20) false) h) in
-  let res := trk_step 1 st (OpCleanup 20) in
+  let q := @trk_env_quiet Z in
+  let h := [(q, OpUpdate 0 (mkMsg 111 [MPresent (Some 1)]) (Some 0));
+            (q, OpUpdate 0 (mkMsg 333 [MPresent (Some 3)]) (Some 1));
+            (q, OpUpdate 16 (mkMsg 222 [MPresent (Some 2)]) None)] in
+  let st := fst (trkc_run 1 (trk_init (Some 20) false) h) in
+  let res := trkc_step 1 q st (OpCleanup 20) in
   map (@tr_mmsi Z) (trk_tracks st) = [111; 333; 222] /\
-  map (@tr_mmsi Z) (trk_tracks (r_state res)) = [333; 222] /\
-  deleted_lus (r_calls res) = [0] /\ t_oldest (r_state res) = Some 1.
+  map (@tr_mmsi Z) (trk_tracks (rc_state res)) = [333; 222] /\
+  deleted_lus (rc_calls res) = [0] /\ t_oldest (rc_state res) = Some 1 /\ rc_exn res = None.
+Proof. vm_compute. repeat split. Qed.
+
+(* non-vacuity 2: an expired track and a DELETED subscriber (callback 7, registered BEFORE callback 8) that raises
+   KeyError for every vessel it does not know (here: all).  The update() of a fresh vessel at t=13 (ttl 12) finds 111
+   expired: the track is deleted, callback 7 is called and raises, pop_track swallows the KeyError, callback 8 is not
+   called, update() returns normally and 111 is gone; an explicit pop_track(222) returns None although it removed the
+   track.  The same in ordered mode. *)
+Example C13_nonvacuous_keyerror_subscriber :
+  forall ordered : bool,
+  let en := @trk_env_of Z [(7, DELETED, None, Py KeyError)] [] in
+  let h := [(en, OpAttach DELETED 7); (en, OpAttach DELETED 8);
+            (en, OpUpdate 0 (mkMsg 111 [MPresent (Some 1)]) (Some 0))] in
+  let st := fst (trkc_run 1 (trk_init (Some 12) ordered) h) in
+  let res := trkc_step 1 en st (OpUpdate 13 (mkMsg 222 [MPresent (Some 2)]) None) in
+  let res2 := trkc_step 1 en (rc_state res) (OpPop 222) in
+  map (@tr_mmsi Z) (trk_tracks st) = [111] /\
+  rc_exn res = None /\ map (@tr_mmsi Z) (trk_tracks (rc_state res)) = [222] /\ deleted_lus (rc_calls res) = [0] /\
+  map (fun d => fst (fst d)) (rc_deliv res) = [7] /\
+  rc_exn res2 = None /\ rc_ret res2 = None /\ trk_tracks (rc_state res2) = [] /\
+  sp_ttl_okb 12 13 (map (@tr_lu Z) (trk_tracks (rc_state res))) (deleted_lus (rc_calls res)) = true.
+Proof. intros []; vm_compute; repeat split. Qed.
+
+(* non-vacuity 3: three expired tracks and a DELETED subscriber that raises ValueError for vessel 222 only: cleanup()
+   pops 111, pops 222 (deleted, then the exception escapes), never reaches 333; the operation raises ValueError and
+   leaves 333 behind -- C13_never_removes_fresh applies, C13_expiry_exact does not (the operation did not complete) *)
+Example C13_nonvacuous_aborted_cleanup :
+  let en := @trk_env_of Z [(7, DELETED, Some 222, Py ValueError)] [] in
+  let h := [(en, OpAttach DELETED 7); (en, OpUpdate 0 (mkMsg 111 [MPresent (Some 1)]) (Some 0));
+            (en, OpUpdate 0 (mkMsg 222 [MPresent (Some 2)]) (Some 1)); (en, OpUpdate 0 (mkMsg 333 [MPresent (Some 3)]) (Some 2))] in
+  let st := fst (trkc_run 1 (trk_init (Some 12) false) h) in
+  let res := trkc_step 1 en st (OpCleanup 30) in
+  rc_exn res = Some (Py ValueError) /\ map (@tr_mmsi Z) (trk_tracks (rc_state res)) = [333] /\
+  deleted_lus (rc_calls res) = [0; 1].
 Proof. vm_compute. repeat split. Qed.
